@@ -1,8 +1,8 @@
 (* C16 — executable model of halmos' unsat-core cache (no proofs here).
    Follows src/halmos/solve.py (check_unsat_cores, SolverOutput.from_result, solve_end_to_end,
    parse_unsat_core, dump) and __main__.py (_solve_end_to_end_callback, run_test verdict chain).
-   check_unsat_cores, the from_result core decision and the append guard are the *generated*
-   functions of Gen/GenUnsatCore.v and Gen/GenCoreAppend.v. *)
+   check_unsat_cores, the from_result core decision, the refinement step of solve_end_to_end and the
+   append guard are the *generated* functions of Gen/GenUnsatCore.v and Gen/GenCoreAppend.v. *)
 From Coq Require Import ZArith List Bool.
 From HV Require Import Gen.GenUnsatCore Gen.GenCoreAppend Spec.CacheSpec.
 Import ListNotations.
@@ -46,15 +46,18 @@ Section Cache.
   Definition solve_low_level (cache_solver refined : bool) (q : query) : reply :=
     from_result cache_solver (low refined q).
 
+  Definition is_sat (r : reply) := match r with Sat _ _ => true | _ => false end.
+  (* model.is_valid of a sat output (the test is only reached for sat outputs: `and` short-circuits) *)
+  Definition valid_of (r : reply) := match r with Sat _ v => v | _ => false end.
+
+  (* the consumers hand over the path's own query: ctx.is_refined = False (T-cacheusers: PathContext(...) without it).
+     What happens after a cache miss -- first answer, whether and how the query is refined and solved again -- is the
+     generated gen_e2e_miss (ids unchanged by refine(): no second cache check, the refined query goes to solve_low_level) *)
   Definition solve_end_to_end (cache_solver : bool) (cores : list (list id)) (q : query) : reply :=
     if check_unsat_cores (qids q) cores then Unsat None          (* "Already proven unsat" *)
     else
-      match solve_low_level cache_solver false q with
-      | Sat m false =>
-          if refine_changes q then solve_low_level cache_solver true q   (* ids unchanged: no second cache check *)
-          else Sat m false
-      | r => r
-      end.
+      let o1 := solve_low_level cache_solver false q in
+      gen_e2e_miss (is_sat o1) (valid_of o1) false (refine_changes q) o1 (solve_low_level cache_solver true q).
 
   Definition is_unsat (r : reply) : bool := match r with Unsat _ => true | _ => false end.
   Definition core_of (r : reply) : option (list id) := match r with Unsat c => c | _ => None end.
@@ -97,7 +100,6 @@ Section Cache.
     map snd (filter (fun p => mem (fst p) c) q).
 
   (* run_test: Counter over str(result) and the if/elif chain *)
-  Definition is_sat (r : reply) := match r with Sat _ _ => true | _ => false end.
   Definition is_err (r : reply) := match r with Err => true | _ => false end.
   Definition is_unknown (r : reply) := match r with Unknown => true | _ => false end.
 
